@@ -619,3 +619,10 @@ V("c15-benign-allowed-registry-literal-union", "C15", "benign", "", "merged regi
   "                allowed_registry = {**self.header_registry, **alg.more_header_registry}\n")
 V("c15-benign-allowed-registry-dict-ctor", "C15", "benign", "", "merged registry copy made with dict()",
   "rfc7516/registry.py", "                allowed_registry = self.header_registry.copy()\n", "                allowed_registry = dict(self.header_registry)\n")
+V2("c18-shared-default-recipient-header", "C18", "break", "R18.5", "add_recipient defaults to one shared dict and add_header keeps filling it (PBES2 salt re-used by later messages)",
+   [("rfc7516/models.py", "        elif self.header:\n            self.header.update({k: v})", "        elif self.header is not None:\n            self.header.update({k: v})"),
+    ("rfc7516/models.py", "    def add_recipient(self, header: Header | None = None, key: Key | None = None) -> None:\n        recipient = Recipient(self, header, key)",
+     "    def add_recipient(self, header: Header = {}, key: Key | None = None) -> None:\n        recipient = Recipient(self, header, key)")])
+V("c18-benign-recipient-header-copy", "C18", "benign", "", "Recipient copies the caller's header dict",
+  "rfc7516/models.py", "        self.header = header\n        self.recipient_key = recipient_key", "        self.header = dict(header) if header else None\n        self.recipient_key = recipient_key")
+
